@@ -744,6 +744,48 @@ def rule_types3(ctx):
             obs.append(ok('TYPES-3', fr + '/named', 'named type resolved through the names map', lk[0].get('sp', '')))
         else:
             obs.append(bad('TYPES-3', fr + '/named', 'named type is not looked up in the names map', fn.loc, 'wrong type id'))
+    # the walk over the wrappers is not cut short: no bounded / skipping adaptor anywhere in the extractors and what they call
+    # (other workspace crates included); C13 quantifies over list depth 4 = up to 9 wrappers
+    cgw = callgraph(ctx)
+    fam_keys = set(extractor_fns)
+    for k_ in extractor_fns:
+        fam_keys |= cgw.reachable([k_])
+    ncut = 0
+    for k_ in sorted(fam_keys):
+        wf = ctx.fn_by_key(k_)
+        if wf is None or wf.from_macro or norm_path(wf.path).endswith('Schema::find_type_id'):
+            continue
+        for n_ in walk(wf.body):
+            if not (n_['k'] == 'mcall' and n_['method'] in ('take', 'skip', 'step_by', 'truncate', 'nth', 'split_off')):
+                continue
+            rt_ = n_['recv'].get('ty', '') + n_['recv'].get('aty', '')
+            if 'HashMap' in rt_ or 'BTreeMap' in rt_ or 'Option<' in rt_.split('<')[0] + '<':
+                if n_['method'] == 'take' and not n_.get('args'):
+                    continue        # Option::take / mem-take
+            ncut += 1
+            bound = None
+            a_ = (n_.get('args') or [None])[0]
+            if isinstance(a_, dict) and a_.get('k') == 'lit' and isinstance((a_.get('lit') or {}).get('v'), int):
+                bound = a_['lit']['v']
+            elif isinstance(a_, dict):
+                t_ = ctx.pv.eval(wf, a_, H.sym_env(wf), 0)
+                if t_[0] == 'global':
+                    cname = t_[1].rsplit('::', 1)[-1]
+                    for dp_, dn_, fs_ in os.walk(REPO):
+                        dn_[:] = [d_ for d_ in dn_ if d_ not in ('target', '.git', 'tests')]
+                        for f_ in fs_:
+                            if f_.endswith('.rs'):
+                                mm_ = re.search(r'\b(?:const|static)\s+%s\s*:\s*\w+\s*=\s*(\d+)\s*;' % re.escape(cname), open(os.path.join(dp_, f_), errors='replace').read())
+                                if mm_:
+                                    bound = int(mm_.group(1))
+            inst_ = 'walk/%s.%s' % (short(wf.path), n_['method'])
+            if n_['method'] in ('take', 'truncate') and bound is not None and bound >= 9:
+                obs.append(ok('TYPES-3', inst_, 'the wrapper walk is bounded by %d levels (>= the 9 wrappers of list depth 4)' % bound, n_.get('sp', wf.loc)))
+            else:
+                obs.append(bad('TYPES-3', inst_, 'the walk over the type wrappers is cut by .%s(%s)' % (n_['method'], bound if bound is not None else '..'), n_.get('sp', wf.loc),
+                               'type expressions with more wrappers lose their inner list / non-null modifiers in this schema format only'))
+    if not ncut:
+        obs.append(ok('TYPES-3', 'walk/complete', 'no bounded or skipping adaptor on the wrapper walk (%d functions of the two extractors scanned)' % len(fam_keys), ''))
     # no other code of the schema layer edits a qualifier list (dedup / retain / remove / insert / reverse / assignment ...)
     cgr = callgraph(ctx)
     helpers = set()
